@@ -258,6 +258,20 @@ func (ex *Exec) strSlice(s Str, lo, hi *Term) Str {
 		}
 	}
 	_, b := ex.symParts(s)
+	if !lo.IsConst() && len(b) <= 24 {
+		// symbolic offset: merged shift (no fork). r[k] = b[lo+k]
+		c := len(b)
+		out := make([]*Term, c)
+		zero := tc.BV(0, 8)
+		for k := 0; k < c; k++ {
+			r := zero
+			for v := c - 1 - k; v >= 0; v-- {
+				r = tc.Ite(tc.Eq(lo, tc.BV(uint64(v), 64)), b[v+k], r)
+			}
+			out[k] = r
+		}
+		return ex.normStr(tc.Sub(hi, lo), out, nil)
+	}
 	l := ex.concretizeRange(lo, 0, len(b), "strslice-lo")
 	var abs any
 	if s.sym != nil && l == 0 && hi == n {
